@@ -451,7 +451,7 @@ PRED = {"and": "is_and", "or": "is_or", "not": "is_not", "implies": "is_implies"
         "bvsle": "is_bv_sle", "bvcomp": "is_bv_comp", "bvsdiv": "is_bv_sdiv", "bvsrem": "is_bv_srem",
         "bvashr": "is_bv_ashr", "select": "is_select", "store": "is_store"}
 CONST_SORTS = (BOOL, INT, REAL, STRING, BV2, BV3)
-INDEX_POOL = {INT: [("Int", i) for i in range(5)],
+INDEX_POOL = {INT: [("Int", i) for i in range(15)],
               REAL: [("Real", Fraction(0)), ("Real", Fraction(1, 2)), ("Real", Fraction(2))],
               BV2: [("BV", i, 2) for i in range(4)]}
 
@@ -515,7 +515,7 @@ def audit_node(W, n, k, memo):
         if sort_of(n.constant_type()) != k[1]:
             return ("constant_type", "constant_type() of %s is %s" % (kshort(k), n.constant_type()))
         val = Fraction(*k[2]) if k[1] == REAL else k[2]
-        other = {BOOL: (not val) if k[1] == BOOL else None, STRING: "zz"}.get(k[1], 7)
+        other = {BOOL: (not val) if k[1] == BOOL else None, STRING: "zz"}.get(k[1], 7 if val != 7 else 8)
         for cs in CONST_SORTS:
             ty = mk_type(W.env, cs)
             if n.is_constant(ty) != (cs == k[1]):
@@ -762,6 +762,9 @@ family("array", [
     ("arr13_22", [("o12", ARR((1, 3), (2, 2))), ("o21", ARR((2, 2), (1, 3)))]),
     ("arr12", [("plain", ARR((1, 2))), ("d-last", ARR((1, 2), (2, 0))), ("d-first", ARR((2, 0), (1, 2)))]),
     ("arr0", [("omit", ARR0), ("none", ARR0 + (None,)), ("empty", ARR0 + ((),)), ("d1", ARR((1, 0))), ("d21", ARR((2, 0), (1, 0)))]),
+    # beyond the small sizes: twelve assigned cells (look-ups by bisection over the stored cells)
+    ("arr_big", [("up", ARR(*[(i, i + 1) for i in range(1, 13)])), ("down", ARR(*[(i, i + 1) for i in range(12, 0, -1)])),
+                 ("d-mid", ARR(*([(i, i + 1) for i in range(1, 7)] + [(14, 0)] + [(i, i + 1) for i in range(7, 13)])))]),
     ("arr0_real", [("omit", ("Array", REAL, I(0)))]),
     ("arr0_bv", [("omit", ("Array", BV2, I(0)))]),
     ("arr_d2", [("plain", ARR((2, 3), d=2)), ("d-first", ARR((1, 2), (2, 3), d=2)), ("d-last", ARR((2, 3), (1, 2), d=2))]),
